@@ -318,7 +318,7 @@ def shard_fn(shard, nshards, seed, tier, exe, npairs, ncopies):
         cmds += ["PUT %d" % side] + (["KSCR 1"] if scr else []) + ["D %d" % (1 - side), "S %d 0" % (1 - side)] + (["KSCR 0"] if scr else []) + ["PUT %d" % (1 - side)]
         cases.append((cid, cmds))
         meta[cid] = ("copy", side, a, bool(mc), len(mc or []), nh, int(scr))
-    results, crashes = core.run_script(exe, cases, tag="c09")
+    results, crashes = core.run_script(exe, cases, tag="c09", env=core.ambient_env(sh, shard))
     cmdmap = dict(cases)
     for cr in crashes:
         kind_, frame = cr.summary()
